@@ -22,6 +22,19 @@ CHECKS = {
         'non-empty sequences/choices, rule bodies well formed. Byte literals in text-mode grammars are not generated.',
    technique='Coq refinement proof (model of generated code vs PEG spec) + differential correspondence via extracted OCaml model',
    ref='DESIGN.md §6 C01'),
+ 'C02': dict(
+   text='Coq theorem C02_yield (any table, any token sequence, any stack depth): the tree returned by the shunting-yard loop of '
+        'OperatorTable._compile reads back, in order, as exactly the tokens consumed (stack invariants over '
+        '_operator_marker/_outer_checkpoint). Tree shape and extent (precedence, associativity, non-chaining of non-associative '
+        'rows, prefix/postfix attachment, dangling operator left unconsumed) are stated by an independent precedence-climbing '
+        'reference (Pratt.v); loop = reference is proved inside the kernel for ALL token strings up to length 5-9 over five '
+        'tables covering every row kind and shared spellings (finite theorems), and checked against the implementation on '
+        'every run. Correspondence: random tables x all token strings up to length 5: expression-level model (raw triples '
+        'incl. failure position), token-level loop model, the reference, and the yield judge on every successful parse; '
+        'character-level tables (++ vs +, mixfix, ignore) through the expression-level model.',
+   note=TB + 'partial: the unbounded equivalence loop = reference (wf_prec/uniqueness) is not proved; mixfix rows are covered by correspondence and by C01\'s Longest/Choice semantics only.',
+   technique='Coq proof of the yield invariant + kernel-computed finite equivalence with a reference + differential correspondence',
+   ref='DESIGN.md §6 C02'),
  'C03': dict(
    text='Same refinement theorem as C01 specialised to bounded repetition (literal and run-time bounds, the spec makes no '
         'claim for a run-time lower bound above the upper bound) and Sep with its four options: greedy up to the upper '
